@@ -81,16 +81,22 @@ def run(ctx):
                 problems.append("the zero fill (line %d) also depends on: %s" % (z.line, "; ".join(x[:80] for x in extra)))
         # every growing path passes the zero fill before the length store
         grow_edges = []
+        not_grow_edges = set()
         for bb, blk in enumerate(f.blocks):
             if blk["cleanup"] or blk["term"]["t"] != "switch":
                 continue
             t = blk["term"]
             vals = [str(x) for x, _ in t["arms"]] + ["otherwise"]
             tg = [b for _, b in t["arms"]] + [t["otherwise"]]
-            for val, tgt in zip(vals, tg):
-                a = g.describe(bb, val, vals)
+            arms_ = [(val, tgt, g.describe(bb, val, vals)) for val, tgt in zip(vals, tg)]
+            for val, tgt, a in arms_:
                 if a and re.search(grow_rx, a):
                     grow_edges += pg.edge_node(bb, tgt)
+                    # the other edge(s) of the same comparison: a path that has taken `new > old` once does not take
+                    # `new <= old` later (the lengths do not change in between: they are the function's inputs)
+                    for val2, tgt2, a2 in arms_:
+                        if tgt2 != tgt:
+                            not_grow_edges.update(pg.edge_node(bb, tgt2))
         zok = set()
         for z in zs:
             zok.update(v.ok_nodes(z.bb) or [("t", z.bb)])
@@ -98,7 +104,7 @@ def run(ctx):
             # the comparison may live in the zero-fill helper (checked below): then every path is a growing path
             grow_edges = [pg.entry()]
         if True:
-            reach = pg.reach(grow_edges, zok | set(v.all_err_nodes()))
+            reach = pg.reach(grow_edges, zok | set(v.all_err_nodes()) | not_grow_edges)
             if any(("t", s.bb) in reach for s in stores):
                 problems.append("the length store is reachable on a growing path without passing the zero fill")
         if problems:
